@@ -44,6 +44,10 @@ def run(ctx):
     def nf_of(name):
         ev = NF({'Qty', 'Quantity'})
         nf = ev.method(methods[name])
+        # the operand parameter may have any name: canonicalise it to `other`
+        params = [a.arg for a in methods[name].args.args]
+        if len(params) >= 2 and params[1] != 'other':
+            nf = _replace(_replace(nf, ('U', params[1]), ('U', 'other')), ('P', params[1]), ('P', 'other'))
         return nf, ev
 
     def require(name):
